@@ -190,6 +190,14 @@ type Und struct {
 	_p    *int
 }
 
+// Pad has blank (padding) fields.
+type Pad struct {
+	A int
+	_ int32
+	B []int
+	_ [4]byte
+}
+
 // Wins is keyed by an imported struct whose unexported fields have a named type.
 type Wins struct {
 	M map[ext.Win]string
@@ -351,6 +359,7 @@ func structTys() []*Ty {
 		mk("ext2.Pt", false, "ext2"),
 		mk("Anon", false, "anon"),
 		mk("Und", false, "unexported", "localpriv"),
+		mk("Pad", false, "unexported", "localpriv"),
 		mk("ext.Win", true, "ext", "unexported", "extpriv"),
 		mk("Wins", false, "ext", "unexported", "extpriv"),
 		mk("ext.PointA", true, "ext", "alias"),
